@@ -45,12 +45,12 @@ def main():
     demo_fails = (f2 > 0 or r.returncode != 0)
     ran.append("cargo test --offline --test %s %s (with change): %d passed, %d failed, rc=%d" % (dname, " ".join(feats), p2, f2, r.returncode))
     # (3) demo without change
-    sh("git diff -- src > /tmp/_seed_patch.diff && git checkout -- src", wt)
+    sh("git diff -- src > %s/.seed_patch.diff && git checkout -- src" % wt, wt)
     r = sh(["cargo", "test", "--offline", "--test", dname] + feats + tail, wt, env)
     p3, f3 = results(r.stdout)
     demo_passes = (f3 == 0 and p3 > 0 and r.returncode == 0)
     ran.append("cargo test --offline --test %s %s (without change): %d passed, %d failed, rc=%d" % (dname, " ".join(feats), p3, f3, r.returncode))
-    sh("git apply /tmp/_seed_patch.diff", wt)
+    sh("git apply %s/.seed_patch.diff" % wt, wt)
     confirmed = suite_ok and demo_fails and demo_passes
     # checks
     fired = {}
@@ -63,7 +63,7 @@ def main():
             fired[pid] = ["<rc=%d>" % r.returncode]
     out = os.path.join(ROOT, "seeded", sid)
     os.makedirs(out, exist_ok=True)
-    shutil.copy("/tmp/_seed_patch.diff", os.path.join(out, "patch.diff"))
+    shutil.copy("%s/.seed_patch.diff" % wt, os.path.join(out, "patch.diff"))
     shutil.copy(os.path.join(wt, "tests", demo), os.path.join(out, demo))
     meta = dict(id=sid, property=prop, needs_to_manifest=needs, demo=demo, demo_features=feats,
                 confirmed=dict(suite_passes_with_change=suite_ok, demo_fails_with_change=demo_fails, demo_passes_without_change=demo_passes),
